@@ -1,4 +1,6 @@
 import OSProofs.Props.C14
+import OSProofs.Props.C20b
+import OSProofs.Props.C15
 #print axioms OS.C14_attrs_unchanged
 #print axioms OS.runHistory_eq
 #print axioms OS.C14_history_irrelevant
@@ -8,3 +10,7 @@ import OSProofs.Props.C14
 #print axioms Sched.shuffle_serial
 #print axioms Sched.calls_indep
 #print axioms Sched.C14_interleaving
+#print axioms OS.C20_rate_values_of_eq
+#print axioms OS.C20_rate_reid
+#print axioms OS.C20_predict_reid
+#print axioms OS.C15_both
